@@ -1145,7 +1145,13 @@ class Engine:
         if isinstance(target, ast.Name):
             env.vars[target.id] = v
         elif isinstance(target, (ast.Tuple, ast.List)):
-            items = self.iter_concrete(ctx, v)
+            if isinstance(v, SymSeq) and not any(isinstance(t, ast.Starred) for t in target.elts):
+                # unpacking a symbolic-length sequence: ValueError unless the length is exactly the number of targets
+                if not ctx.decide(v.length == len(target.elts)):
+                    raise PyRaise(ExcVal(V.ExtClass("ValueError")))
+                items = [v.at(ctx, z3.IntVal(k)) for k in range(len(target.elts))]
+            else:
+                items = self.iter_concrete(ctx, v)
             if len(items) != len(target.elts):
                 raise PyRaise(ExcVal(V.ExtClass("ValueError")))
             for t, x in zip(target.elts, items):
